@@ -5,11 +5,10 @@
 use super::net::*;
 use crate::core::Outcome;
 use anyhow::{anyhow, Result};
-use quinn::{ClientConfig, Endpoint, EndpointConfig, IdleTimeout, TransportConfig, VarInt};
+use quinn::{ClientConfig, Endpoint, EndpointConfig, TransportConfig, VarInt};
 use rustls::{Certificate, PrivateKey, RootCertStore};
 use selium::keep_alive::BackoffStrategy;
 use selium_protocol::{BiStream, Frame};
-use selium_server::quic::{load_root_store, read_certs, server_config, ConfigOptions};
 use selium_server::server::Server;
 use selium_tools::cli::GenCertsArgs;
 use selium_tools::commands::gen_certs::GenCertsRunner;
@@ -262,25 +261,45 @@ impl World {
         self.start_server_files(&certs.server.join("ca.der"), &certs.server.join("localhost.der"), &certs.server.join("localhost.key.der"), opts)
     }
 
-    /// As the server binary does it: CA file, certificate (chain) file, key file.
+    /// As the server binary does it: `Server::try_from(UserArgs)` with the CA file, certificate
+    /// (chain) file and key file given on its command line; only the endpoint's UDP socket and
+    /// timer source are substituted (hook H5).
     pub fn start_server_files(&self, ca: &Path, cert: &Path, key: &Path, opts: ServerOpts) -> Result<()> {
-        let root_store = load_root_store(ca.to_path_buf())?;
-        let (chain, key) = read_certs(cert.to_path_buf(), key.to_path_buf())?;
-        let cfg_opts = ConfigOptions { keylog: false, stateless_retry: false, max_idle_timeout: IdleTimeout::from(VarInt::from_u32(opts.idle_timeout_ms)) };
-        let mut config = server_config(root_store, chain, key, cfg_opts)?;
-        if opts.send_window.is_some() || opts.stream_receive_window.is_some() {
-            if let Some(t) = Arc::get_mut(&mut config.transport) {
-                if let Some(w) = opts.send_window {
-                    t.send_window(w);
-                }
-                if let Some(w) = opts.stream_receive_window {
-                    t.stream_receive_window(VarInt::from_u32(w));
+        use clap::Parser;
+        use selium_server::args::UserArgs;
+        use selium_server::server::verif::set_server_endpoint_factory;
+        let net = self.net.clone();
+        set_server_endpoint_factory(Some(Box::new(move |mut config, _addr| {
+            if opts.send_window.is_some() || opts.stream_receive_window.is_some() {
+                if let Some(t) = Arc::get_mut(&mut config.transport) {
+                    if let Some(w) = opts.send_window {
+                        t.send_window(w);
+                    }
+                    if let Some(w) = opts.stream_receive_window {
+                        t.stream_receive_window(VarInt::from_u32(w));
+                    }
                 }
             }
-        }
-        let sock = self.net.bind_server();
-        let endpoint = Endpoint::new_with_abstract_socket(EndpointConfig::default(), Some(config), sock, Arc::new(SimRuntime))?;
-        let server = Rc::new(Server::verif_from_endpoint(endpoint));
+            let sock = net.bind_server();
+            Endpoint::new_with_abstract_socket(EndpointConfig::default(), Some(config), sock, Arc::new(SimRuntime))
+        })));
+        let args = UserArgs::try_parse_from([
+            "selium-server".to_string(),
+            "--bind-addr".into(),
+            server_addr().to_string(),
+            "--ca".into(),
+            ca.to_string_lossy().to_string(),
+            "--cert".into(),
+            cert.to_string_lossy().to_string(),
+            "--key".into(),
+            key.to_string_lossy().to_string(),
+            "--max-idle-timeout".into(),
+            opts.idle_timeout_ms.to_string(),
+        ])
+        .map_err(|e| anyhow!("server arguments: {e}"));
+        let server = args.and_then(Server::try_from);
+        set_server_endpoint_factory(None);
+        let server = Rc::new(server?);
         *self.server.borrow_mut() = Some(server.clone());
         let local = tokio::task::spawn_local(ACTOR.scope(SERVER_GROUP, async move {
             let _ = server.listen().await;
